@@ -367,7 +367,10 @@ class MonitorNet(DExplore):
     """two real dilation stacks (Manager + Connector + DilatedConnectionProtocol over the in-memory network, concrete clock): any link may die at
     any moment, then more than three ping intervals pass.  The Leader must not be left holding a connection that is gone (a dead link is a silent
     peer): by then it has dropped it and started a new generation, and nothing failed internally."""
-    configs = {"net-any-loss": dict(app=False, lose_any=True)}
+    configs = {"net-any-loss": dict(app=False, lose_any=True),
+               # the link goes silent, the Leader's monitor hangs up, a new generation converges - and the transport of the OLD connection may report
+               # its loss at any later moment (a peer that stopped answering does not acknowledge the FIN either)
+               "net-silent-late-loss-report": dict(app=False, silent_after_connect=True, late_loss_report=True)}
 
     def __init__(self, cfg, plo, phi, k):
         DExplore.__init__(self, cfg, plo, phi, k)
@@ -391,6 +394,20 @@ class MonitorNet(DExplore):
                 out.append(("internal failure", "%s: %s %s: %s" % (s_.name, e[0], e[1], e[2])))
         for l in w.logged:
             out.append(("error logged", l))
+        # "a connection whose peer answers every ping within one interval is never dropped": every new generation the Leader starts has a cause -
+        # the network killed a link, or the connection in use had been quiet for at least one ping interval when the Leader hung up on it
+        for i, s_ in enumerate(w.sides):
+            if getattr(s_.m, "_my_role", None) is LEADER and not any(sim.stopped_req):
+                ping = s_.m._ping_interval if hasattr(s_.m, "_ping_interval") else 30.0
+                justified = sum(1 for d in w.net.inuse_drops if d["manager"] is s_.m and d["quiet"] >= ping)
+                unjust = [d for d in w.net.inuse_drops if d["manager"] is s_.m and d["quiet"] < ping]
+                for d in unjust:
+                    out.append(("the Leader hung up on a connection that had been quiet for less than one ping interval", "link %d quiet for %.1fs" % (d["link"], d["quiet"])))
+                nrec = s_.sender.types.count("reconnect")
+                causes = getattr(sim, "cause_losses", 0) + justified
+                if nrec > causes:
+                    out.append(("the Leader started a new generation without a cause (no link was lost, no connection went quiet)",
+                                "%d reconnect message(s), %d lost link(s), %d justified monitor drop(s)" % (nrec, getattr(sim, "cause_losses", 0), justified)))
         if when == "settled" and getattr(sim, "_intervals_passed", False) and not any(sim.stopped_req):
             for i, s_ in enumerate(w.sides):
                 if s_.m._my_role is LEADER and s_.m._connection is not None:
